@@ -10,6 +10,8 @@ def main(tier):
     kernels.bezier_algebra(P, rep)
     kernels.bezier_record(P, rep)
     kernels.acos_clamp(P, rep)
+    from ..rules import frame as _frame
+    rep.attempt(_frame.great_circle, P, rep)     # the value under the clamp is the cosine of the central angle
     kernels.kd_structure(P, rep)
     kernels.conversion_roundtrip(P, rep)
     kernels.point_kernels(P, rep)
